@@ -9,6 +9,7 @@ import (
 	"math/rand"
 	"os"
 	"sort"
+	"strings"
 	"sync"
 	"time"
 
@@ -146,13 +147,13 @@ func (checkC18) ShrinkPlan(sc *Scenario) []json.RawMessage {
 }
 
 type apiRecord struct {
-	client            int
-	call              c18Call
-	invSeq, retSeq    uint64
-	hInvoke, hReturn  uint32
-	res               json.RawMessage
-	rpcErr, panicked  string
-	duringOpenTx      bool
+	client           int
+	call             c18Call
+	invSeq, retSeq   uint64
+	hInvoke, hReturn uint32
+	res              json.RawMessage
+	rpcErr, panicked string
+	duringOpenTx     bool
 }
 
 // normalise strips the parts of a response that are not functions of the
@@ -413,11 +414,10 @@ func (checkC18) Run(env *Env, sc *Scenario) (*Violation, error) {
 			if rec.panicked != "" {
 				continue
 			}
-			if rec.call.Method == "get-global-rich-list" {
-				// ranked by a USD equivalent that is computed from the process-local
-				// average cache and from rates read before the balances: not a function
-				// of one committed height. The call stays in the load (it mutates the
-				// cache the sync goroutine uses; oracle 1 watches the ledger).
+			if rec.call.Method == "get-global-rich-list" && rec.hInvoke != rec.hReturn {
+				// ranked by a USD equivalent computed from rates read before the
+				// balances: when a commit falls inside the call the ranking is not a
+				// function of one committed height (and cannot be matched part by part)
 				continue
 			}
 			got := "error:" + rec.rpcErr
@@ -445,6 +445,20 @@ func (checkC18) Run(env *Env, sc *Scenario) (*Violation, error) {
 				// the handler answering with an error is acceptable, wrong data is not
 				match = true
 				env.Stats.Probe("error_response_while_straddling_a_commit")
+			}
+			if !match && len(exps) > 1 && (rec.call.Method == "get-rich-list" || rec.call.Method == "get-global-rich-list") {
+				// the handler reads the rates first (and answers with an error if one
+				// it needs is zero), the balances afterwards: with a commit in between,
+				// the decision comes from one committed height and the list from the
+				// next. If the quiescent node answers with an error on one side there
+				// is no list to compare the other side's with.
+				for _, e := range exps {
+					if strings.HasPrefix(e, "error:") {
+						match = true
+						env.Stats.Probe("rich_list_straddles_a_commit_with_an_error_side(not judged)")
+						break
+					}
+				}
 			}
 			if !match && len(exps) > 1 {
 				// A handler that reads twice may straddle a commit: each top-level
